@@ -33,7 +33,7 @@ let res f = function Val v -> f v | Trap -> "!trap" | Unsafe -> "!unsafe"
 let lres f = function LVal v -> f v | LErr -> "!error"
 
 (* ---- the port's StrPatt around the extracted matcher ---- *)
-exception PTrap
+exception PTrap of string
 exception PUnsafe
 exception PFuel
 exception Decline
@@ -58,7 +58,8 @@ let ms_match (src : z list) (pat : z list) (plain : bool) (pos : z) : ((z * z) *
     let m p = match run_match nl_cfg src pat p0 p with
       | MFound (e, c) -> Some (e, c)
       | MFail -> None
-      | MError | MTooComplex -> raise PTrap
+      | MError -> raise (PTrap "error")
+      | MTooComplex -> raise (PTrap "complex")
       | MUnsafe -> raise PUnsafe
       | MFuel -> raise PFuel in
     nl_ms_match src m anchor pos
@@ -71,7 +72,67 @@ let sub_list (l : z list) (a : z) (n : z) : z list =
 (* string_match's reading of the captures: position and unfinished captures stop the program *)
 let cap_strings (src : z list) (caps : (z * z) list) : z list list =
   List.map (fun (ci, cl) ->
-      if int_of_z cl < 0 then raise PTrap else sub_list src ci cl) caps
+      if int_of_z cl = -2 then raise (PTrap "poscapture") else if int_of_z cl < 0 then raise (PTrap "unfinished") else sub_list src ci cl) caps
+
+(* ---- the Coq transcription of Lua (str_find_aux / str_gsub around run_match lua_cfg): the SPEC side of the matcher
+   theorems, printed after " || " and compared with the real interpreter by checks/C13.py ---- *)
+exception LuaErr
+let lua_matcher (src : z list) (pat : z list) (p0 : z) : z -> (z * (z * z) list) option =
+  fun p -> match run_match lua_cfg src pat p0 p with
+    | MFound (e, c) -> Some (e, c)
+    | MFail -> None
+    | MError | MTooComplex -> raise LuaErr
+    | MUnsafe -> raise PUnsafe
+    | MFuel -> raise PFuel
+
+let lua_find_aux ?(find = true) (src : z list) (pat : z list) (init : z) (plain : bool) : ((z * z) * (z * z) list) option =
+  match lua_find_init init (zlen src) with
+  | None -> None
+  | Some i0 ->
+    (* str_find_aux: the plain search is taken by string.find only (explicit plain, or no special character) *)
+    if find && (plain || not (has_specials pat)) then
+      (match plain_find (nat_of_int (List.length src - int_of_z i0)) src pat i0 with
+       | Some st -> Some ((st, Z.add st (zlen pat)), [])
+       | None -> None)
+    else begin
+      let anchor = (match pat with c :: _ -> int_of_z c = 94 | [] -> false) in
+      let p0 = if anchor then z_of_int 1 else Z0 in
+      lua_do_search src (lua_matcher src pat p0) anchor i0
+    end
+
+(* get_onecapture / push_captures as ref.lua prints them: a position capture is 'p<pos>', an unfinished one an error *)
+let lua_caps (src : z list) (st : z) (e : z) (caps : (z * z) list) : string list =
+  if caps = [] then [hex (sub_list src st (Z.sub e st))]
+  else List.map (fun (ci, cl) ->
+      let l = int_of_z cl in
+      if l = -1 then raise LuaErr
+      else if l = -2 then "p" ^ dec_of_z (Z.add ci (z_of_int 1))
+      else hex (sub_list src ci cl)) caps
+
+let lua_pattern_spec (op : string) (s : int -> z list) (n : int -> z) : string =
+  try
+    (match op with
+     | "find" ->
+       (match lua_find_aux (s 0) (s 1) (n 2) (int_of_z (n 3) <> 0) with
+        | None -> "nil"
+        | Some ((st, e), caps) ->
+          ignore (lua_caps (s 0) st e caps);        (* find pushes the captures too: an unfinished one is an error *)
+          dec_of_z (Z.add st (z_of_int 1)) ^ " " ^ dec_of_z e)
+     | "match" ->
+       (match lua_find_aux ~find:false (s 0) (s 1) (n 2) false with
+        | None -> "nil"
+        | Some ((st, e), caps) -> "true " ^ String.concat " " (lua_caps (s 0) st e caps))
+     | "gsub" | "gsub3" ->
+       let src = s 0 and pat = s 1 and repl = s 2 in
+       let maxn = if op = "gsub3" then Z.add (zlen src) (z_of_int 1) else n 3 in
+       let anchor = (match pat with c :: _ -> int_of_z c = 94 | [] -> false) in
+       let p0 = if anchor then z_of_int 1 else Z0 in
+       (match lua_gsub (lua_matcher src pat p0) src repl anchor maxn with
+        | Some (Ok (r, k)) -> hex r ^ " " ^ dec_of_z k
+        | Some Err -> "!error"
+        | None -> "!fuel")
+     | _ -> "?")
+  with LuaErr -> "!error" | PFuel -> "!fuel" | PUnsafe -> "!unsafe"
 
 let pattern_op (op : string) (s : int -> z list) (n : int -> z) : string =
   match op with
@@ -83,7 +144,7 @@ let pattern_op (op : string) (s : int -> z list) (n : int -> z) : string =
        (match ms_match src pat (int_of_z (n 3) <> 0) i0 with
         | Some ((st, e), caps) ->
           (* after 55bba64: an unfinished capture stops the program *)
-          if List.exists (fun (_, cl) -> int_of_z cl = -1) caps then raise PTrap;
+          if List.exists (fun (_, cl) -> int_of_z cl = -1) caps then raise (PTrap "unfinished");
           dec_of_z (Z.add st (z_of_int 1)) ^ " " ^ dec_of_z e
         | None -> "0 0"))
   | "match" ->
@@ -104,7 +165,8 @@ let pattern_op (op : string) (s : int -> z list) (n : int -> z) : string =
     let m p = match run_match nl_cfg src pat Z0 p with
       | MFound (e, c) -> Some (e, c)
       | MFail -> None
-      | MError | MTooComplex -> raise PTrap
+      | MError -> raise (PTrap "error")
+      | MTooComplex -> raise (PTrap "complex")
       | MUnsafe -> raise PUnsafe
       | MFuel -> raise PFuel in
     let rec loop init lastend k first =
@@ -113,7 +175,7 @@ let pattern_op (op : string) (s : int -> z list) (n : int -> z) : string =
       | Some ((st, e), caps) ->
         if k + 1 > len + 1 then false
         else begin
-          if List.length caps > 8 then raise PTrap;
+          if List.length caps > 8 then raise (PTrap "caplimit");
           let strs = if caps = [] then [sub_list src st (Z.sub e st)] else cap_strings src caps in
           if not first then Buffer.add_char buf ' ';
           Buffer.add_string buf (String.concat "," (List.map hex strs));
@@ -130,7 +192,8 @@ let pattern_op (op : string) (s : int -> z list) (n : int -> z) : string =
       else match run_match nl_cfg src pat p0 p with
         | MFound (e, c) -> Some (e, c)
         | MFail -> None
-        | MError | MTooComplex -> raise PTrap
+        | MError -> raise (PTrap "error")
+      | MTooComplex -> raise (PTrap "complex")
         | MUnsafe -> raise PUnsafe
         | MFuel -> raise PFuel in
     (match nl_gsub m src repl anchor maxn with
@@ -282,7 +345,8 @@ let () =
                 no model voice for patterns with many quantifiers (exponential search) *)
              let quants = List.length (List.filter (fun c -> let c = int_of_z c in c = 63 || c = 42 || c = 43 || c = 45) (s 1)) in
              if quants > 10 || List.length (s 1) > 64 || List.length (s 0) > 64 then "?"
-             else (try pattern_op op s n with PTrap -> "!trap" | PUnsafe -> "!unsafe" | PFuel -> "!fuel")
+             else (try pattern_op op s n with PTrap r -> "!trap:" ^ r | PUnsafe -> "!unsafe" | PFuel -> "!fuel")
+                  ^ (if op = "gmatch" then "" else " || " ^ lua_pattern_spec op s n)
            | "abs" -> dec_of_z (nl_abs (n 0)) ^ " || " ^ dec_of_z (lua_abs (n 0))
            | "fmod" -> res dec_of_z (nl_fmod (n 0) (n 1)) ^ " || " ^ lres dec_of_z (lua_fmod (n 0) (n 1))
            | "ult" -> b2s (nl_ult (n 0) (n 1))
